@@ -21,7 +21,10 @@ def pred_game(rng, kind=None, stratum=None, n=None, maxsize=8):
     if stratum == "identical" and rng.random() < 0.5 and len(teams) > 2:
         # only some of the teams identical
         teams[-1] = [(m + beta, s) for (m, s) in teams[-1]]
-    return make_game(kind, teams, beta=beta, kappa=kappa, tau=tau)
+    g = make_game(kind, teams, beta=beta, kappa=kappa, tau=tau)
+    if stratum == "identical" and rng.random() < 0.5:
+        g["alias"] = True
+    return g
 
 
 def pred_lines(g):
@@ -40,9 +43,53 @@ def parse_pred(lines):
     return w, d, r
 
 
-def impl_pred(g, cls=None):
+PRED_STATS = {"aliased": 0, "interleaved": 0}
+
+
+def impl_pred(g, cls=None, probe=None):
+    """the three predictions of game g on one model object.
+    * identical teams share ONE list object when g['alias'] is set (the same squad entered twice);
+    * every few games the call is interleaved deterministically with an unrelated prediction on the same model:
+      a rating subclass whose `mu` property, at its k-th read, runs the three predictions on other teams."""
     model = build_model(g, cls)
+    kind_cls = core.RATING_CLS[g["kind"]] if cls is None else None
+    h = core.game_hash(g)
+    if probe is None:
+        probe = core.REENTRANT_EVERY > 0 and h % core.REENTRANT_EVERY == 1
     teams = build_teams(model, g)
+    if g.get("alias"):
+        for i in range(len(teams)):
+            for j in range(i):
+                if g["teams"][i] == g["teams"][j]:
+                    teams[i] = teams[j]
+                    PRED_STATS["aliased"] += 1
+                    break
+    if probe and kind_cls is not None:
+        PRED_STATS["interleaved"] += 1
+        state = {"n": 0, "at": 2 + h // 11 % 5, "busy": False}
+        other = [[model.rating(mu=m * 0.5 + g["beta"], sigma=s * 1.5 + 0.01 * g["beta"]) for (m, s) in t] for t in reversed(g["teams"])]
+        other = other + [other[0][:1]]
+
+        class Probe(kind_cls):
+            @property
+            def mu(self):
+                state["n"] += 1
+                if state["n"] == state["at"] and not state["busy"]:
+                    state["busy"] = True
+                    model.predict_win(other); model.predict_draw(other); model.predict_rank(other)
+                    state["busy"] = False
+                    state["at"] += 7
+                return self.__dict__["_mu"]
+
+            @mu.setter
+            def mu(self, v):
+                self.__dict__["_mu"] = v
+        t0 = teams[h % len(teams)]
+        k = h // 3 % len(t0)
+        old = t0[k]
+        pr = Probe(old.mu, old.sigma, old.name)
+        pr.id = old.id
+        t0[k] = pr
     return model.predict_win(teams), model.predict_draw(teams), model.predict_rank(teams)
 
 
@@ -127,6 +174,26 @@ def c09_one(res, g, rng):
         res.count("two_identical")
         if w != [0.5, 0.5]:
             res.fail("property", "C09: two identical teams get %r, not exactly one half each" % (w,), inp)
+    # the same model object and the same rating objects, values changed in place between predictions
+    # (what a league does after rate(): ids stay, numbers move)
+    try:
+        model = build_model(g)
+        objs = build_teams(model, g)
+        w_a = model.predict_win(objs)
+        i = rng.randrange(n); j = rng.randrange(len(objs[i]))
+        step = g["beta"] * 10 ** rng.uniform(-2, 1)
+        objs[i][j].mu += step
+        w_b = model.predict_win(objs)
+        g3 = dict(g); g3["teams"] = [[(p.mu, p.sigma) for p in t] for t in objs]
+        w_fresh = impl_pred(g3, probe=False)[0]
+        res.count("in_place_updates")
+        if any(abs(a - b) > 1e-12 for a, b in zip(w_b, w_fresh)):
+            res.fail("property", "C09: after changing a rating in place, predict_win on the same model gives %r; identical values in fresh objects give %r" % (w_b, w_fresh),
+                     dict(type="pred", game=g))
+        elif w_b[i] < w_a[i] - 1e-13:
+            res.fail("property", "C09: raising mu of [%d][%d] in place lowers its team's win probability %r -> %r" % (i, j, w_a[i], w_b[i]), dict(type="pred", game=g))
+    except Exception as e:  # noqa: BLE001
+        res.fail("property", "C09: predict_win raised %s after an in-place update" % type(e).__name__, dict(type="pred", game=g))
     # monotone in any member's mu
     for _ in range(3):
         i = rng.randrange(n); j = rng.randrange(len(g["teams"][i]))
